@@ -494,6 +494,11 @@ def shard(spec) -> core.Acc:
                 acc.count('traces_accessor')
             check_state(acc, spec[1], list(ACCESSORS))
             check_state(acc, spec[1], ['acc_static_props', 'props', 'acc_read_ent_data', 'ents', 'acc_packfile', 'pakfile'])
+            for a_name, view in (('acc_packfile', 'pakfile'), ('acc_static_props', 'props'), ('acc_static_prop_models', 'props'),
+                                 ('acc_read_ent_data', 'ents'), ('acc_texture_names', 'textures'), ('acc_vis_helpers', 'visibility'),
+                                 ('acc_vis_helpers', 'nodes'), ('acc_get_lumps', 'planes'), ('acc_game_lumps', 'detail_props')):
+                check_state(acc, spec[1], [view, a_name])          # the parsed view first, then the accessor
+                check_state(acc, spec[1], [a_name, view, a_name])
     elif kind == 'unreadable':
         check_unreadable_view(acc, spec[1], spec[2])
     return acc
